@@ -209,7 +209,7 @@ def cq_value(v):
     if ty == "bool":
         return "(VBool %s)" % cq_bool(v.get("b", False))
     if ty in ("int", "uint", "goint", "id"):
-        return "(VInt %s)" % cq_Z(v.get("i", 0))
+        return "(VInt %s)" % cq_Z(v.get("u") or v.get("i", 0))
     if ty == "float":
         return "(VFloat %s)" % cq_Z(int(v.get("f", 0)))
     if ty == "str":
@@ -508,6 +508,8 @@ def build_case(sched, res):
                         others.append("CloseStart %s" % cq_nat(l["o"]))
                     elif k == "end":
                         others.append("TransportEnd")
+                    elif k in ("stall", "unstall"):
+                        pass    # the router end's reading is not part of the model
             for o in os_:
                 if o["e"] == "invctx":
                     others.append("HandlerReturn %s HCanceled" % cq_N(o.get("req", 0)))
@@ -948,14 +950,23 @@ def gen_invocation(b):
     iid = b.nextinv
     shape = rng.random()
     det = {}
-    if rng.random() < 0.3:
-        det["timeout"] = V("int", i=rng.choice([1000, 3000, 3000, 2 ** 62]))
+    if rng.random() < 0.35:
+        # every numeric kind a decoder can hand the client (AsInt64 takes them all)
+        ms = rng.choice([1000, 3000, 3000, 2 ** 62])
+        kind = rng.choice(["int", "uint", "goint", "float"]) if ms < 10 ** 6 else rng.choice(["int", "uint"])
+        det["timeout"] = V("float", f=float(ms)) if kind == "float" else V(kind, i=ms)
+        if rng.random() < 0.05:
+            det["timeout"] = V("uint", u=2 ** 63 + 5)      # wraps negative: no deadline
     if rng.random() < 0.4:
         det["receive_progress"] = V("bool", b=True)
     inv = lambda progress=False: b.msg("invocation", req={"lit": iid}, reg=reg, tag=b.tag(),
                                        details=dict(det, **({"progress": V("bool", b=True)} if progress else {})))
     hret = lambda r: {"k": "hret", "inv": iid, "r": r, "tag": b.tag()}
     intr = b.msg("interrupt", req={"lit": iid})
+    tmo = det.get("timeout")
+    tmo_ms = int(tmo.get("f") or tmo.get("i") or 0) if tmo else 0
+    if tmo and 0 < tmo_ms < 10 ** 6 and rng.random() < 0.45:
+        shape = 0.85          # let the invocation's own timeout strike
     if shape < 0.3:
         b.burst([inv()])
         if det.get("receive_progress") and rng.random() < 0.5:
@@ -1002,12 +1013,12 @@ def gen_invocation(b):
         b.burst([inv()])                               # same id after the end: stale
         if iid > 1:
             b.burst([b.msg("invocation", req={"lit": iid - 1}, reg=reg, tag=b.tag())])   # older id: stale
-    elif shape < 0.9 and "timeout" in det and det["timeout"]["i"] < 10 ** 6:
+    elif shape < 0.9 and 0 < tmo_ms < 10 ** 6:
         b.burst([inv()])
         if rng.random() < 0.5:
-            b.burst([], adv=det["timeout"]["i"])       # the invocation's own timeout
+            b.burst([], adv=tmo_ms)                    # the invocation's own timeout
         else:
-            b.burst([hret("ok")], adv=det["timeout"]["i"], prearm=rng.random() < 0.5)
+            b.burst([hret("ok")], adv=tmo_ms, prearm=rng.random() < 0.5)
     elif shape < 0.95:
         b.burst([inv()])                               # the handler is still running when the client closes
     else:
@@ -1063,6 +1074,19 @@ class Trace:
 
     def msgs_for(self, req, kinds=None):
         return [x for x in self.sent if x[4] == req and req != 0 and (kinds is None or x[3]["t"] in kinds)]
+
+
+def eff_timeout(v):
+    """wamp.AsInt64 of a timeout detail (None when it is not numeric)."""
+    ty = (v or {}).get("ty")
+    if ty in ("int", "goint", "id"):
+        return int(v.get("i", 0))
+    if ty == "uint":
+        z = int(v.get("u") or v.get("i", 0))
+        return z - 2 ** 64 if z >= 2 ** 63 else z
+    if ty == "float":
+        return int(v.get("f", 0))
+    return None
 
 
 def is_progressive(m):
@@ -1278,7 +1302,7 @@ def monitor_c16(sched, res):
     for x in T.sent:
         if x[3]["t"] == "invocation" and x[4] not in inv_t:
             to = ((x[3].get("details") or {}).get("timeout") or {})
-            inv_t[x[4]] = (x[2], to.get("i") if to.get("ty") in ("int", "uint") else None)
+            inv_t[x[4]] = (x[2], eff_timeout(to))
     for pos, ob in enumerate(T.obs):
         if ob["e"] == "invctx" or (ob["e"] == "inv" and ob.get("ctx")):
             req = ob.get("req")
@@ -1293,6 +1317,28 @@ def monitor_c16(sched, res):
             if not why:
                 v("handler context cancelled without INTERRUPT or timeout",
                   "request %s at t=%d (invocation at %s, timeout option %s)" % (req, ob["t"], t0, to))
+    # ... and it IS cancelled at exactly the invocation's timeout (whatever numeric
+    # kind the decoder delivered) when the handler is still running then
+    for req, (t0, to) in inv_t.items():
+        if not to or to <= 0 or to > 10 ** 7 or t0 is None:
+            continue
+        dl = t0 + to
+        starts = [(p, ob) for p, ob in enumerate(T.obs) if ob["e"] == "inv" and ob.get("req") == req]
+        if not starts or starts[0][1]["t"] != t0:
+            continue
+        if not any(tt >= dl for tt in T.times):
+            continue
+        ended = [ob for ob in T.obs if ob["e"] in ("invret", "invctx") and ob.get("req") == req and ob["t"] <= dl]
+        intr = any(x[3]["t"] == "interrupt" and x[4] == req and x[2] <= dl for x in T.sent)
+        if intr or (T.end_t is not None and T.end_t <= dl):
+            continue
+        early = [ob for ob in ended if ob["t"] < dl or ob["e"] == "invret"]
+        if early:
+            continue
+        if not any(ob["e"] == "invctx" and ob["t"] == dl for ob in ended):
+            v("handler context not cancelled at the invocation's timeout",
+              "request %s: INVOCATION at %d with timeout %s (%s) -> deadline %d; the running handler's context was not cancelled then"
+              % (req, t0, to, [x[3]["details"]["timeout"]["ty"] for x in T.sent if x[3]["t"] == "invocation" and x[4] == req][0], dl))
     return bad
 
 
@@ -1331,6 +1377,13 @@ def monitor_c17(sched, res):
             if not any(ob["e"] == "event" and ob.get("pub") == probe["pub"] for ob in T.obs):
                 bad.append(("C17 client stopped processing messages",
                             "the EVENT (publication %d) sent after the hostile message never reached its handler" % probe["pub"]))
+        elif kind == "ret_at":
+            rets = T.rets.get(probe["o"], [])
+            got = (rets[0][1]["r"], rets[0][1]["t"]) if rets else ("not returned before the end of the script", None)
+            if got != (probe["r"], probe["t"]):
+                bad.append(("C17 cancelled call did not return %s one response timeout after its CANCEL" % probe["r"],
+                            "op %d: CANCEL at %d, response timeout %d: must return %s at exactly %d; observed %s at %s" % (
+                                probe["o"], probe["t"] - T.rt, T.rt, probe["r"], probe["t"], got[0], got[1])))
         elif kind == "ret":
             rets = T.rets.get(probe["o"], [])
             if not rets:
@@ -1600,6 +1653,62 @@ def gen_c17(rng, tier, keys):
             h.hostile(labs)
             b.closed = True
             scripts.append(h.finish(probes=False, close=False))
+    # results that keep coming after the CANCEL, never an ERROR: the call returns ErrReplyTimeout
+    # exactly one response timeout after the CANCEL (the timer is not restarted by what is discarded)
+    for mode in ("kill", "skip", ""):
+        for final in (False, True):
+            h = Hostile("time:cancel-stream:%s:%s" % (mode or "default", "final" if final else "progressive"), "timing", cancel_mode=mode)
+            b = h.b
+            h.hostile([{"k": "cancel", "o": h.call_o}])
+            t_cancel = b.now
+            stream = lambda: b.msg("result", req={"op": h.call_o}, tag=b.tag(),
+                                   **({} if final else {"details": {"progress": V("bool", b=True)}}))
+            h.hostile([stream()], adv=2000)
+            h.hostile([stream()], adv=2000)
+            h.hostile([], adv=RT - 4000)                      # here the response timer of the CANCEL is due
+            for _ in range(4):
+                h.hostile([stream()], adv=1500)
+            b.s["probes"].append({"k": "ret_at", "o": h.call_o, "r": "timeout", "t": t_cancel + RT})
+            scripts.append(h.finish(answer_call=False))
+    h = Hostile("time:deadline-stream", "timing")
+    b = h.b
+    lab = b.api("callprog", 7, ctx="deadline", deadline_ms=1000, prog=True, chunks=1)
+    o = b.nop
+    h.hostile([lab])
+    h.hostile([b.msg("result", req={"op": o}, tag=b.tag(), details={"progress": V("bool", b=True)})], adv=1000)
+    for _ in range(4):
+        h.hostile([b.msg("result", req={"op": o}, tag=b.tag(), details={"progress": V("bool", b=True)})], adv=1500)
+    b.s["probes"].append({"k": "ret_at", "o": o, "r": "timeout", "t": 1000 + RT})
+    scripts.append(h.finish())
+    # F8: the router end stops reading (busy session handler / transport writer gone) while a
+    # reply of an invocation is pending, then the connection ends without INTERRUPT: the goroutine
+    # that sends the reply must leave, Close() must return, nothing may be left
+    for r in ("ok", "err", "canceled"):
+        for how in ("end", "goodbye", "abort"):
+            h = Hostile("stall:yield-pending:%s:%s" % (r, how), "stall")
+            b = h.b
+            h.hostile([hostile_msg(h, "invocation", {}, [V("int", i=9)], False)])
+            h.hostile([{"k": "stall"}])
+            h.hostile([{"k": "hret", "inv": h.inv, "r": r, "tag": 5}])
+            h.hostile([{"k": "end"} if how == "end" else b.msg(how, uri="wamp.close.system_shutdown")])
+            b.ended = True
+            scripts.append(h.finish(probes=False))
+    # a CallProgressive with a progress handler that ends by cancellation / disconnect leaves no goroutine
+    for how in ("cancel", "end"):
+        h = Hostile("dir:callprog-progress-%s" % how, "directed")
+        b = h.b
+        lab = b.api("callprog", 7, ctx="cancel", prog=True, chunks=1)
+        o = b.nop
+        h.hostile([lab])
+        h.hostile([b.msg("result", req={"op": o}, tag=b.tag(), details={"progress": V("bool", b=True)})])
+        if how == "cancel":
+            h.hostile([{"k": "cancel", "o": o}])
+            h.hostile([b.msg("error", req={"op": o}, tag=b.tag())])
+            scripts.append(h.finish())
+        else:
+            h.hostile([{"k": "end"}])
+            b.ended = True
+            scripts.append(h.finish(probes=False))
     # F6: directed
     h = Hostile("dir:ppt-result-unsupported-then-close", "directed", ppt=False)
     h.hostile([h.b.msg("result", req={"op": h.call_o}, details={"ppt_scheme": V("str", s="x_a")}, tag=5)])
